@@ -22,7 +22,8 @@ LEVEL = "exploration"
 
 # atom -> (written text, expanded value)    Template:a = "A[{{{1}}}]"
 ATOMS = [("1=p", None), ("a", "a"), (" a", " a"), ("a ", "a "), ("\na", "\na"), ("k=v", None), (" k = v ", None), ("k=\nv", None),
-         ("2=v", None), ("j= {{a|z}} ", None), ("{{a|x}}", "A[x]"), (" {{a| y }} ", " A[ y ] "), ("x y", "x y"), ("m=", None), ("n={{pad}}", None), ("{{pad}}", " x ")]
+         ("2=v", None), ("j= {{a|z}} ", None), ("{{a|x}}", "A[x]"), (" {{a| y }} ", " A[ y ] "), ("x y", "x y"), ("m=", None), ("n={{pad}}", None), ("{{pad}}", " x "),
+         ("t=one\ntwo", None), (" u = * a\n* b\n", None)]
 EXPAND = {"{{a|z}}": "A[z]", "{{pad}}": " x "}
 
 ECHO = r"""
